@@ -1,11 +1,10 @@
-import KV.Proofs.CsFixed
+import KV.Proofs.CsLock
 import KV.Proofs.CsProgress
 import KV.Proofs.CsSyncStep
-/-! The invariant whose failure is the stale-lock defect, for the repaired model `stepFixed`
-(`KV/Model/CsFixed.lean`): `NoStale` — a locked node's own prevote sets hold no +2/3 majority for
+/-! The invariant whose failure is the stale-lock defect, for the node model `Cs.step` (with the F36 fix of `enterNewRound`): `NoStale` — a locked node's own prevote sets hold no +2/3 majority for
 another value at a round in `(lockedRound, round]`.  It is restored at the three places where it
 can break: a prevote is added (`polkaUpdate`: "Unlocking because of POL", for rounds `≤ round`), the
-round advances (`releaseStale` in `enterNewRoundFixed` — the repair), the node locks
+round advances (`releaseStale` in `enterNewRound` — the F36 fix), the node locks
 (`doPrecommit`: `lockedRound := round`).  Core Lean only. -/
 namespace KV.Cs
 
@@ -164,7 +163,7 @@ theorem enterCommit_noStale {cfg : Config} {σ : State} (N : NoStale cfg σ) (h 
 
 theorem enterPrecommit_noStale {cfg : Config} {σ : State} (N : NoStale cfg σ) (h r : Nat) (hr : r ≤ σ.round) :
     NoStale cfg (enterPrecommit cfg h r σ) := by
-  unfold enterPrecommit
+  rw [enterPrecommit_le cfg h r σ hr]
   split
   · exact N
   · rename_i hg
@@ -207,6 +206,12 @@ theorem enterPrecommit_noStale {cfg : Config} {σ : State} (N : NoStale cfg σ) 
           split
           · exact rel _ rfl _
           · exact rel _ rfl _
+
+theorem enterPrecommit_noStale' {cfg : Config} {σ : State} (N : NoStale cfg σ) (h r : Nat)
+    (hr : σ.step ≠ .commit → r ≤ σ.round) : NoStale cfg (enterPrecommit cfg h r σ) := by
+  by_cases hc : σ.step = .commit
+  · rw [enterPrecommit_commit cfg h r σ hc]; exact N
+  · exact enterPrecommit_noStale N h r (hr hc)
 
 /-! ### the block arrives -/
 
@@ -252,19 +257,21 @@ theorem releaseStale_noStale (cfg : Config) (σ : State) : NoStale cfg (releaseS
   · rename_i hl
     exact NoStale.of_unlocked hl
 
-theorem enterNewRoundFixed_noStale {cfg : Config} {σ : State} (N : NoStale cfg σ) (nb : Option Nat) (h r : Nat) :
-    NoStale cfg (enterNewRoundFixed cfg nb h r σ) := by
-  unfold enterNewRoundFixed
+theorem enterNewRound_noStale {cfg : Config} {σ : State} (N : NoStale cfg σ) (nb : Option Nat) (h r : Nat) :
+    NoStale cfg (enterNewRound cfg nb h r σ) := by
+  unfold enterNewRound
   split
   · exact N
-  · have J := releaseStale_noStale cfg (newRoundPrep cfg r σ)
-    obtain ⟨extra, hh', hr', -⟩ := newRoundPrep_spec cfg r σ
-    simp only
-    split
-    · split
-      · exact J.keep (keep_schedule ..)
-      · exact J
-    · exact J.keep (keep_enterPropose cfg nb h r _ (by rw [releaseStale_round, hr']))
+  · split
+    · exact N
+    · have J := releaseStale_noStale cfg (newRoundPrep cfg r σ)
+      obtain ⟨extra, hh', hr', -⟩ := newRoundPrep_spec cfg r σ
+      simp only
+      split
+      · split
+        · exact J.keep (keep_schedule ..)
+        · exact J
+      · exact J.keep (keep_enterPropose cfg nb h r _ (by rw [releaseStale_round, hr']))
 
 /-! ### a vote arrives -/
 
@@ -351,11 +358,11 @@ theorem polkaUpdate_noStale {cfg : Config} {σ : State} (vr : Nat)
     | none => exact U
     | some b => exact U.keep (keep_polkaValid ..)
 
-theorem prevoteSwitchFixed_noStale {cfg : Config} {σ : State} (N : NoStale cfg σ) (nb : Option Nat) (h vr : Nat)
-    (m : Option Target) (any : Bool) : NoStale cfg (prevoteSwitchFixed cfg nb h vr m any σ) := by
-  unfold prevoteSwitchFixed
+theorem prevoteSwitch_noStale {cfg : Config} {σ : State} (N : NoStale cfg σ) (nb : Option Nat) (h vr : Nat)
+    (m : Option Target) (any : Bool) : NoStale cfg (prevoteSwitch cfg nb h vr m any σ) := by
+  unfold prevoteSwitch
   split
-  · exact enterNewRoundFixed_noStale N nb h vr
+  · exact enterNewRound_noStale N nb h vr
   · split
     · rename_i hc
       have hle : vr ≤ σ.round := by
@@ -377,48 +384,31 @@ theorem prevoteSwitchFixed_noStale {cfg : Config} {σ : State} (N : NoStale cfg 
         · exact N
       · exact N
 
-theorem afterPrevoteFixed_noStale {cfg : Config} {σ : State} (nb : Option Nat) (vr : Nat)
+theorem afterPrevote_noStale {cfg : Config} {σ : State} (nb : Option Nat) (vr : Nat)
     (N : ∀ lb, σ.locked = some lb → ∀ r' x, r' ≠ vr → σ.lockedRound < r' → r' ≤ σ.round →
       maj23 cfg.powers (slotsV σ.votes .prevote σ.height r') = some x → x = some lb.id) :
-    NoStale cfg (afterPrevoteFixed cfg nb vr σ) := by
-  unfold afterPrevoteFixed
-  exact prevoteSwitchFixed_noStale (polkaUpdate_noStale vr N) nb _ vr _ _
+    NoStale cfg (afterPrevote cfg nb vr σ) := by
+  unfold afterPrevote
+  exact prevoteSwitch_noStale (polkaUpdate_noStale vr N) nb _ vr _ _
 
-theorem enterNewRoundFixed_round_le (cfg : Config) (nb : Option Nat) (h r : Nat) (σ : State) :
-    σ.round ≤ (enterNewRoundFixed cfg nb h r σ).round := by
-  unfold enterNewRoundFixed
-  split
-  · exact Nat.le_refl _
-  · rename_i hg
-    obtain ⟨extra, hh', hr', -⟩ := newRoundPrep_spec cfg r σ
-    simp only
-    split
-    · split
-      · show σ.round ≤ (releaseStale cfg (newRoundPrep cfg r σ)).round
-        rw [releaseStale_round, hr']; omega
-      · rw [releaseStale_round, hr']; omega
-    · have := enterPropose_round_ge cfg nb h r (releaseStale cfg (newRoundPrep cfg r σ))
-        (by rw [releaseStale_round]; exact hr')
-      omega
-
-theorem afterPrecommitFixed_noStale {cfg : Config} {σ : State} (N : NoStale cfg σ) (nb : Option Nat) (vr : Nat) :
-    NoStale cfg (afterPrecommitFixed cfg nb vr σ) := by
-  unfold afterPrecommitFixed
+theorem afterPrecommit_noStale {cfg : Config} {σ : State} (N : NoStale cfg σ) (nb : Option Nat) (vr : Nat) :
+    NoStale cfg (afterPrecommit cfg nb vr σ) := by
+  unfold afterPrecommit
   simp only
   split
-  · have N1 := enterNewRoundFixed_noStale N nb σ.height vr
-    have N2 := enterPrecommit_noStale N1 σ.height vr (enterNewRoundFixed_round_ge cfg nb vr σ)
+  · have N1 := enterNewRound_noStale N nb σ.height vr
+    have N2 := enterPrecommit_noStale' N1 σ.height vr (enterNewRound_round_ge' cfg nb vr σ)
     split
     · exact enterCommit_noStale N2 _ _
     · exact N2.keep (keep_enterPrecommitWait ..)
   · split
-    · exact (enterNewRoundFixed_noStale N nb _ _).keep (keep_enterPrecommitWait ..)
+    · exact (enterNewRound_noStale N nb _ _).keep (keep_enterPrecommitWait ..)
     · exact N
 
-theorem addVoteFixed_noStale {cfg : Config} {σ : State} (N : NoStale cfg σ) (nb : Option Nat) (peer idx : Nat)
+theorem addVote_noStale {cfg : Config} {σ : State} (N : NoStale cfg σ) (nb : Option Nat) (peer idx : Nat)
     (t : VType) (h r : Nat) (tgt : Target) (sigok : Bool) :
-    NoStale cfg (addVoteFixed cfg nb peer idx t h r tgt sigok σ) := by
-  unfold addVoteFixed
+    NoStale cfg (addVote cfg nb peer idx t h r tgt sigok σ) := by
+  unfold addVote
   split
   · exact N
   · split
@@ -443,7 +433,7 @@ theorem addVoteFixed_noStale {cfg : Config} {σ : State} (N : NoStale cfg σ) (n
             cases t with
             | prevote =>
               simp only
-              apply afterPrevoteFixed_noStale
+              apply afterPrevote_noStale
               intro lb hl r' x hne h1 h2 h3
               have h3' : maj23 cfg.powers (slotsV (σ1.votes.map (setSlot .prevote idx tgt h r)) .prevote σ1.height r') =
                   some x := h3
@@ -451,7 +441,7 @@ theorem addVoteFixed_noStale {cfg : Config} {σ : State} (N : NoStale cfg σ) (n
               exact N1 lb hl r' x h1 h2 h3'
             | precommit =>
               simp only
-              apply afterPrecommitFixed_noStale
+              apply afterPrecommit_noStale
               intro lb hl r' x h1 h2 h3
               have h3' : maj23 cfg.powers (slotsV (σ1.votes.map (setSlot .precommit idx tgt h r)) .prevote σ1.height r') =
                   some x := h3
@@ -459,16 +449,16 @@ theorem addVoteFixed_noStale {cfg : Config} {σ : State} (N : NoStale cfg σ) (n
               exact N1 lb hl r' x h1 h2 h3'
           · exact N1
 
-theorem handleTimeoutFixed_noStale {cfg : Config} {σ : State} (N : NoStale cfg σ) (nb : Option Nat) (h r : Nat)
+theorem handleTimeout_noStale {cfg : Config} {σ : State} (N : NoStale cfg σ) (nb : Option Nat) (h r : Nat)
     (s : Step) (hok : h = σ.height → r ≤ σ.round) (hr1 : 1 ≤ σ.round) :
-    NoStale cfg (handleTimeoutFixed cfg nb h r s σ) := by
-  unfold handleTimeoutFixed
+    NoStale cfg (handleTimeout cfg nb h r s σ) := by
+  unfold handleTimeout
   split
   · exact N
   · rename_i hg
     have hr : r ≤ σ.round := hok (by omega)
     split
-    · exact enterNewRoundFixed_noStale N nb h 1
+    · exact enterNewRound_noStale N nb h 1
     · -- `enterPropose(height, 1)` fires only in round 1 (rounds start at 1)
       by_cases h1 : σ.round = 1
       · exact N.keep (keep_enterPropose cfg nb h 1 σ h1)
@@ -477,21 +467,21 @@ theorem handleTimeoutFixed_noStale {cfg : Config} {σ : State} (N : NoStale cfg 
         exact N
     · exact N.keep (keep_enterPrevote cfg h r σ hr)
     · exact enterPrecommit_noStale N h r hr
-    · exact enterNewRoundFixed_noStale (enterPrecommit_noStale N h r hr) nb h (r + 1)
+    · exact enterNewRound_noStale (enterPrecommit_noStale N h r hr) nb h (r + 1)
     · exact N.keep (keep_panic _)
 
 /-- **`NoStale` is preserved by the repaired step** (timeouts as in `step_inv`) -/
-theorem stepFixed_noStale {cfg : Config} {σ : State} (I : Inv cfg σ) (N : NoStale cfg σ) (nb : Option Nat)
-    (i : Input) (hok : TimeoutOk σ i) : NoStale cfg (stepFixed cfg σ nb i) := by
-  unfold stepFixed
+theorem step_noStale {cfg : Config} {σ : State} (I : Inv cfg σ) (N : NoStale cfg σ) (nb : Option Nat)
+    (i : Input) (hok : TimeoutOk σ i) : NoStale cfg (step cfg σ nb i) := by
+  unfold step
   split
   · exact N
   · have J : NoStale cfg { σ with added := false } := N.keep ⟨rfl, rfl, rfl, rfl, rfl⟩
     cases i with
     | proposal src sigok h r pol id => exact J.keep (keep_setProposal ..)
     | block h id ok dec => exact addBlock_noStale J h id ok dec
-    | vote peer idx t h r tgt sigok => exact addVoteFixed_noStale J nb peer idx t h r tgt sigok
-    | timeout h r s => exact handleTimeoutFixed_noStale J nb h r s hok I.r1
+    | vote peer idx t h r tgt sigok => exact addVote_noStale J nb peer idx t h r tgt sigok
+    | timeout h r s => exact handleTimeout_noStale J nb h r s hok I.r1
 
 theorem init_noStale (cfg : Config) (h : Nat) : NoStale cfg (init cfg h) := NoStale.of_unlocked rfl
 
